@@ -295,6 +295,15 @@ Theorem C19_validate_MinFlowDecompCycles_refuted_nonconserving :
   exists i, in_domain_MinFlowDecompCycles i = false /\ validate_MinFlowDecompCycles i = AcceptsButUnsolved.
 Proof. exact validate_MinFlowDecompCycles_refuted_nonconserving. Qed.
 Print Assumptions C19_validate_MinFlowDecompCycles_refuted_nonconserving.
+(* the constraint-type decision of the node-weighted models: if the expansion of the constraints succeeds, every element of every
+   constraint is of the kind of the first element (all node names, or all edge tuples): mixed lists never get through, and with
+   [C19_validate_complete_*] they are rejected with ValueError *)
+Theorem C19_mixed_constraint_lists_rejected : forall cs,
+  expand_cons cs = None ->
+  forallb (fun it => kind_eqb (it_kind it) IStr) (all_items cs) = true \/
+  forallb (fun it => kind_eqb (it_kind it) IPair) (all_items cs) = true.
+Proof. exact expand_cons_uniform. Qed.
+Print Assumptions C19_mixed_constraint_lists_rejected.
 (* k and solution_weights_superset (29f2322): every k-model validates the caller's k before and independently of the given weights *)
 Theorem C19_kFlowDecomp_k_checked_independently_of_given_weights : forall i,
   k_bad i = true -> validate_kFlowDecomp i <> Accept.
@@ -443,6 +452,11 @@ Example C19_nonvacuous_invalid :
   validate_kLeastAbsErrors (set_superset k0 true) = RaiseValueError /\ validate_kMinPathError (set_superset kf true) = RaiseValueError /\
   validate_kLeastAbsErrors (set_k ex_dag KNone) = RaiseValueError /\ validate_kMinPathError (set_k ex_dag KNone) = Accept /\
   in_domain_kMinPathError (set_k ex_dag KNone) = true /\ validate_kMinPathError (set_k ex_dag KStr) = RaiseValueError /\
+  (* node mode: a node-type constraint that contains an EXISTING edge tuple, and node-type followed by edge-type constraints *)
+  (let n := {| it_kind := IStr; it_in_graph := true |} in
+   validate_kMinPathError (set_origin (set_cons ex_dag [ {| c_is_list := true; c_items := [n; good_item; n] |} ] 1%Q) ONode TFloat) = RaiseValueError /\
+   validate_kMinPathError (set_origin (set_cons ex_dag [ {| c_is_list := true; c_items := [n; n] |}; {| c_is_list := true; c_items := [good_item] |} ] 1%Q) ONode TFloat) = RaiseValueError /\
+   validate_kMinPathError (set_origin (set_cons ex_dag [ {| c_is_list := true; c_items := [n; n] |} ] 1%Q) ONode TFloat) = Accept) /\
   (* a graph whose only cycle is a self-loop is not a DAG *)
   in_domain_kFlowDecomp (set_loop_pct ex_dag true PNone PNone) = false /\ validate_kFlowDecomp (set_loop_pct ex_dag true PNone PNone) = RaiseValueError /\
   validate_stDAG (set_loop_pct ex_dag true PNone PNone) = RaiseValueError /\
